@@ -54,6 +54,8 @@ func main() {
 	fs.StringVar(&out, "out", "", "")
 	fs.StringVar(&vf, "test.vf", "", "")
 	fs.StringVar(&extra, "x", "", "k=v,k=v extra parameters")
+	var benchLabel string
+	fs.StringVar(&benchLabel, "benchlabel", "", "ignored: lets a probe process carry an argument that starts with -bench")
 	if err := fs.Parse(os.Args[1:]); err != nil {
 		fmt.Fprintln(os.Stderr, "harness usage error:", err)
 		os.Exit(3)
